@@ -1672,8 +1672,29 @@ void* __wrap_fiber_scheduler_next(void* s) {
 void __real_wsd_work_stealing_deque_push_bottom(void* d, void* p);
 void* __real_wsd_work_stealing_deque_pop_bottom(void* d);
 void* __real_wsd_work_stealing_deque_steal(void* d);
+/* the bottom end of a run queue belongs to one kernel thread (the deque has a single producer; C02's "one owner"):
+ * whoever uses it first owns it, anybody else pushing or popping there breaks the protocol's precondition */
+static struct {
+  void* d;
+  int owner;
+} dq_owner[32];
+static int n_dq_owner;
+static void ghost_bottom_end(void* d, const char* what) {
+  for (int k = 0; k < n_dq_owner; k++)
+    if (dq_owner[k].d == d) {
+      if (dq_owner[k].owner != me)
+        sim_violation("C02-deque-second-owner", "kernel thread %d calls %s on a run queue whose bottom end belongs to kernel thread %d (the deque has one owner; everybody else may only steal)", me, what,
+                      dq_owner[k].owner);
+      return;
+    }
+  if (n_dq_owner < 32) {
+    dq_owner[n_dq_owner].d = d;
+    dq_owner[n_dq_owner++].owner = me;
+  }
+}
 void __wrap_wsd_work_stealing_deque_push_bottom(void* d, void* p) {
   if (sim_active && me >= 0 && fiber_mode) {
+    ghost_bottom_end(d, "push_bottom");
     int i = gidx(p);
     if (G[i].inq) sim_violation("C02-slot-duplicate", "fiber #%d pushed to a run queue while already in one", i);
     G[i].inq = 1;
@@ -1697,7 +1718,10 @@ static void* ghost_taken(void* r, const char* how) {
   }
   return r;
 }
-void* __wrap_wsd_work_stealing_deque_pop_bottom(void* d) { return ghost_taken(__real_wsd_work_stealing_deque_pop_bottom(d), "pop_bottom"); }
+void* __wrap_wsd_work_stealing_deque_pop_bottom(void* d) {
+  if (sim_active && me >= 0 && fiber_mode) ghost_bottom_end(d, "pop_bottom");
+  return ghost_taken(__real_wsd_work_stealing_deque_pop_bottom(d), "pop_bottom");
+}
 void* __wrap_wsd_work_stealing_deque_steal(void* d) {
   void* r = ghost_taken(__real_wsd_work_stealing_deque_steal(d), "steal");
   if (r != (void*)-1 && r != (void*)-2) stat_steal_ok++;
